@@ -445,6 +445,9 @@ impl Future for PeerReader {
         let mut rb = ReadBuf::new(&mut this.scratch[..n]);
         match Pin::new(reader).poll_read(cx, &mut rb) {
             Poll::Pending => {
+                if std::env::var("VERIF_TRACE_READS").is_ok() {
+                    eprintln!("{} peer{} read pending", now_step(), this.pid);
+                }
                 this.shared.borrow_mut().reader_waker = Some(cx.waker().clone());
                 Poll::Pending
             }
@@ -460,6 +463,9 @@ impl Future for PeerReader {
                     return Poll::Ready(());
                 }
                 let filled = rb.filled().to_vec();
+                if std::env::var("VERIF_TRACE_READS").is_ok() {
+                    eprintln!("{} peer{} read {} bytes (asked {})", now_step(), this.pid, filled.len(), n);
+                }
                 this.buf.extend_from_slice(&filled);
                 if let Err(e) = this.record_frames() {
                     this.finish(&format!("decode-error {e}"));
@@ -823,6 +829,7 @@ pub async fn run_scenario(sc: &AgentScenario, keep_log: bool) -> RunRecord {
     let k = &sc.knobs;
     let sched = Scheduler::new(Rng::new(k.sched_seed), policy_of(&k.policy), 2_000);
     let mut exec = Exec::new(sched, EventLog::new(keep_log));
+    exec.trace_polls = keep_log && std::env::var("VERIF_TRACE_POLLS").is_ok();
     let hist: SharedHist = Rc::new(RefCell::new(Hist::default()));
     let spawn: SpawnQueue = Rc::new(RefCell::new(vec![]));
     let durable = Arc::new(PlMutex::new(Durable::default()));
@@ -919,6 +926,11 @@ pub async fn run_scenario(sc: &AgentScenario, keep_log: bool) -> RunRecord {
                 break;
             }
             flush_spawns(&mut exec, &spawn);
+            // Return to the tokio runtime after every step: each node poll then runs with a
+            // fresh tokio coop budget (as a task poll does in production) and wakers that tokio
+            // deferred are delivered before the next scheduling decision. The paused clock does
+            // not move (the runtime only yields, it never parks).
+            tokio::task::yield_now().await;
         }
         flush_spawns(&mut exec, &spawn);
         if exec.has_ready() {
